@@ -162,3 +162,29 @@ def run(cx):
                 brs = [c for c in co.calls_to("Try::branch") if term_has_call(o.of_operand(c.args[0]), f"{WIRE}::{st_}")
                        and strip_identity(o.of_operand(c.args[0]))[0] in ("field", "variant")]
                 ob.require(len(brs) >= 1, f"propagate/{fn.split('::')[-1]}/{st_}", f"{fn}: result of {st_} is not propagated with `?`", co.path)
+
+    with cx.ob("C15.5", "R-CALLERS", "every header/body byte goes through the length-limited codec: raw stream reads/writes only for the 8-byte version preamble") as ob:
+        n = 0
+        for c in prog.all_calls(crates=["anemo"]):
+            if c.body.is_cleanup(c.bb) or not c.fn:
+                continue
+            raw_w = name_matches(c.fn, "re:^tokio::io::util::async_write_ext::AsyncWriteExt::") or name_matches(c.fn, ("quinn::send_stream::SendStream::write", "quinn::send_stream::SendStream::write_all",
+                                                                                                                   "quinn::send_stream::SendStream::write_chunk", "quinn::send_stream::SendStream::write_chunks"))
+            raw_r = name_matches(c.fn, "re:^tokio::io::util::async_read_ext::AsyncReadExt::") or name_matches(c.fn, ("quinn::recv_stream::RecvStream::read", "quinn::recv_stream::RecvStream::read_exact",
+                                                                                                                  "quinn::recv_stream::RecvStream::read_chunk", "quinn::recv_stream::RecvStream::read_to_end"))
+            if not (raw_w or raw_r):
+                continue
+            n += 1
+            own = owner_path(prog, c.body)
+            ok = own == (f"{WIRE}::write_version_frame" if raw_w else f"{WIRE}::read_version_frame")
+            ob.require(ok, f"raw-io/{own}/{c.fn.split('::')[-1]}", f"{c.body.path} does raw stream IO ({c.fn.split('::')[-1]}) outside the version preamble — bytes that bypass the frame codec are not size-limited",
+                       c.body.path, c.body.loc(c.bb))
+        ob.floor(n, 2, "raw stream IO sites (write_all / read_exact of the preamble)")
+        # and the four message codecs send/receive exactly header frame + body frame (C07.3)
+        from . import c07
+        sub = cx.__class__("C15", prog, cx.tier, cx.config, cx.tree, repo=cx.repo)
+        c07.run(sub)
+        w = [x for x in sub.obs if x.oid.startswith("C07.3")]
+        bad = [v for x in w for v in x.violations]
+        ob.count(sum(x.evals for x in w))
+        ob.require(len(w) == 4 and not bad, "framed-header-and-body", "a message codec does not send/receive header and body as two codec frames: " + "; ".join(v.msg for v in bad)[:300], WIRE)
